@@ -128,8 +128,11 @@ Definition istyle_of (x : sx) : option istyle :=
 
 Definition pred_of (x : sx) : option (option pstyle) :=
   match x with
-  | SL [t; p; c; ts] => if is_id t "pred" then do p <- as_N p; do c <- as_N c; do ts <- as_Ns ts;
-                          Some (Some {| p_pred := p; p_cols := c; p_types := ts |}) else None
+  | SL [t; p; c; ts; co; b16; ex] =>
+    if is_id t "pred" then do p <- as_N p; do c <- as_N c; do ts <- as_Ns ts; do co <- as_N co;
+                           do b16 <- as_bool b16; do ex <- as_bool ex;
+                           Some (Some {| p_pred := p; p_cols := c; p_types := ts; p_colors := co; p_bpc16 := b16;
+                                         p_explicit := ex |}) else None
   | _ => if is_id x "none" then Some None else None
   end.
 Definition sfilter_of (x : sx) : option sfilter :=
